@@ -419,4 +419,353 @@ example : ((JournalRun.run Sys.init demoRun).rep? "D").map (·.spec) = ((Journal
 example : ((JournalRun.run Sys.init demoRun).rep? "A").map (·.cursor) = some 5 := by decide
 example : demoRun.foldl stepEvGen Sys.init = JournalRun.run Sys.init demoRun := runGen_eq _ _ (by decide)
 
+/-! ## `hpre` is a run invariant under the id discipline of the real code -/
+
+/-- the number of records issued by `w` in a list -/
+def own (w : String) (l : List Rec) : Nat := l.countP (fun x => x.worker == w)
+
+/-- a batch is read up to its end, or up to and including a record of the reader itself -/
+theorem applyLogs_split (w : String) (rs : List Rec) : ∀ st : JState, ∃ a b, rs = a ++ b ∧
+    (applyLogs w st rs).1.cursor = st.cursor + a.length ∧
+    (b = [] ∨ ∃ a' x, a = a' ++ [x] ∧ (x.worker == w) = true) := by
+  induction rs with
+  | nil => intro st; exact ⟨[], [], rfl, rfl, .inl rfl⟩
+  | cons r rest ih =>
+    intro st
+    have hsp := (apply_spec w { st with cursor := st.cursor + 1 } r).2
+    have hcu := apply_cursor w { st with cursor := st.cursor + 1 } r
+    simp only [applyLogs]
+    split
+    · rename_i st' e heq
+      rw [heq] at hsp hcu
+      simp only at hsp hcu
+      refine ⟨[r], rest, rfl, by simp [hcu], .inr ⟨[], r, rfl, ?_⟩⟩
+      cases hw : r.worker == w with
+      | true => rfl
+      | false => rw [hw] at hsp; simp at hsp
+    · rename_i st' heq
+      rw [heq] at hcu
+      simp only at hcu
+      obtain ⟨a, b, h1, h2, h3⟩ := ih st'
+      refine ⟨r :: a, b, by rw [h1]; rfl, by rw [h2, hcu]; simp; omega, ?_⟩
+      rcases h3 with h3 | ⟨a', x, h3, h4⟩
+      · exact .inl h3
+      · exact .inr ⟨r :: a', x, by rw [h3]; rfl, h4⟩
+
+/-- a sync leaves unread at most one own record fewer than before (none if there was at most one) -/
+theorem sync_own (w : String) (st : JState) (log : List Rec) (hc : st.cursor ≤ log.length) :
+    own w (log.drop (sync w st log log.length).1.cursor) ≤ own w (log.drop st.cursor) - 1 := by
+  unfold sync
+  rw [List.take_length]
+  obtain ⟨a, b, h1, h2, h3⟩ := applyLogs_split w (log.drop st.cursor) st
+  rw [h2]
+  have hdrop : log.drop (st.cursor + a.length) = b := by
+    rw [← List.drop_drop, h1, List.drop_left]
+  rw [hdrop, h1]
+  unfold own
+  rw [List.countP_append]
+  rcases h3 with h3 | ⟨a', x, h3, h4⟩
+  · subst h3; simp
+  · subst h3
+    rw [List.countP_append]
+    simp only [List.countP_cons, List.countP_nil, h4, if_true]
+    omega
+
+theorem rep?_setRep_self (s : Sys) (w : String) (st : JState) : (s.setRep w st).rep? w = some st := by
+  simp [Sys.setRep, Sys.rep?]
+
+theorem rep?_setRep_ne (s : Sys) (w w' : String) (st : JState) (h : (w' == w) = false) :
+    (s.setRep w' st).rep? w = s.rep? w := by
+  simp only [Sys.setRep, Sys.rep?, List.find?_cons, h]
+  congr 1
+  induction s.reps with
+  | nil => rfl
+  | cons p t ih =>
+    simp only [List.filter_cons, List.find?_cons]
+    by_cases hp : (p.1 == w) = true
+    · have : (p.1 != w') = true := by
+        simp only [beq_iff_eq] at hp; simp only [bne_iff_ne, ne_eq, hp]; intro e; simp [e] at h
+      simp [this, hp]
+    · simp only [Bool.not_eq_true] at hp
+      by_cases hq : (p.1 != w') = true
+      · simp [hq, hp, ih]
+      · simp [hq, hp, ih]
+
+theorem find?_filter_ne (l : List (String × JState)) (w w' : String) :
+    (l.filter (fun p => p.1 != w')).find? (fun p => p.1 == w) =
+      if w' = w then none else l.find? (fun p => p.1 == w) := by
+  by_cases hw : w' = w
+  · subst hw
+    simp only [if_true, List.find?_eq_none, List.mem_filter]
+    intro x hx; simpa using hx.2
+  · simp only [hw, if_false]
+    induction l with
+    | nil => rfl
+    | cons q t ih =>
+      simp only [List.filter_cons, List.find?_cons]
+      by_cases hq : q.1 = w'
+      · have h2 : (w' == w) = false := by simp [hw]
+        simp [hq, h2, ih]
+      · have : (q.1 != w') = true := by simp [hq]
+        simp only [this, if_true, List.find?_cons, ih]
+
+theorem rep?_crash (s : Sys) (w w' : String) (st : JState)
+    (h : Sys.rep? { s with reps := s.reps.filter (fun p => p.1 != w') } w = some st) : s.rep? w = some st := by
+  simp only [Sys.rep?, find?_filter_ne] at h ⊢
+  split at h
+  · simp at h
+  · exact h
+
+/-- the ghost invariant for worker `w`: all records and all live workers carry ids that joined / restored before
+(`seen`), and `w` has at most `p` records of its own in the part of the log it has not read -/
+def K (w : String) (s : Sys) (seen : List String) (p : Nat) : Prop :=
+  (∀ x ∈ s.log, x.worker ∈ seen) ∧ (∀ q ∈ s.reps, q.1 ∈ seen) ∧
+  (∀ st, s.rep? w = some st → own w (s.log.drop st.cursor) ≤ p)
+
+def seenStep (seen : List String) : Ev → List String
+  | .join w => w :: seen
+  | .restore w _ => w :: seen
+  | _ => seen
+
+def okEv (seen : List String) : Ev → Bool
+  | .join w => !seen.contains w
+  | .restore w _ => !seen.contains w
+  | _ => true
+
+theorem freshFrom_cons (seen : List String) (e : Ev) (rest : List Ev) :
+    freshFrom seen (e :: rest) = (okEv seen e && freshFrom (seenStep seen e) rest) := by
+  cases e <;> simp [freshFrom, okEv, seenStep]
+
+theorem k_append (w w' : String) (op : Op) (s : Sys) (seen : List String) (p : Nat) (hk : K w s seen p) (hI : Inv s) :
+    K w (doAppend s w' op) seen (if w' == w then p + 1 else p) := by
+  obtain ⟨ha, hb, hc⟩ := hk
+  unfold doAppend
+  split
+  · rename_i st' r hl hr
+    have hrw := issue_worker w' op r hr
+    refine ⟨?_, hb, ?_⟩
+    · intro x hx
+      simp only [List.mem_append, List.mem_singleton] at hx
+      rcases hx with hx | hx
+      · exact ha x hx
+      · rw [hx, hrw]; exact hb _ (rep?_mem s w' st' hl)
+    · intro st hst
+      have hst' : s.rep? w = some st := hst
+      have hle : st.cursor ≤ s.log.length := (hI.1 _ (rep?_mem s w st hst')).1
+      show own w ((s.log ++ [r]).drop st.cursor) ≤ _
+      rw [List.drop_append_of_le_length hle]
+      unfold own
+      rw [List.countP_append]
+      have := hc st hst'
+      unfold own at this
+      simp only [List.countP_cons, List.countP_nil, hrw]
+      cases hww : w' == w <;> simp <;> omega
+  · refine ⟨ha, hb, fun st hst => ?_⟩
+    have := hc st hst
+    split <;> omega
+
+theorem k_sync (w w' : String) (s : Sys) (seen : List String) (p : Nat) (hk : K w s seen p) (hI : Inv s) :
+    K w (doSync s w') seen (if w' == w then p - 1 else p) := by
+  obtain ⟨ha, hb, hc⟩ := hk
+  unfold doSync
+  cases hl : s.rep? w' with
+  | none =>
+    refine ⟨ha, hb, fun st hst => ?_⟩
+    have := hc st hst
+    cases hww : w' == w with
+    | false => simpa using this
+    | true =>
+      have e : w' = w := by simpa using hww
+      subst e; rw [hl] at hst; cases hst
+  | some st' =>
+    refine ⟨ha, ?_, ?_⟩
+    · intro q hq
+      rcases mem_setRep s w' _ q hq with e | e
+      · rw [e]; exact hb (w', st') (rep?_mem s w' st' hl)
+      · exact hb q e
+    · intro st hst
+      cases hww : w' == w with
+      | false =>
+        rw [rep?_setRep_ne s w w' _ hww] at hst
+        have := hc st hst
+        show own w (s.log.drop st.cursor) ≤ _
+        simpa using this
+      | true =>
+        have e : w' = w := by simpa using hww
+        subst e
+        rw [rep?_setRep_self] at hst
+        simp only [Option.some.injEq] at hst
+        subst hst
+        have hle : st'.cursor ≤ s.log.length := (hI.1 _ (rep?_mem s w' st' hl)).1
+        have h1 := sync_own w' st' s.log hle
+        have h2 := hc st' hl
+        show own w' (s.log.drop _) ≤ _
+        simp only [if_true]
+        omega
+
+theorem k_mono (w : String) (s : Sys) (seen : List String) (x : String) (p : Nat) (hk : K w s seen p) :
+    (∀ y ∈ s.log, y.worker ∈ x :: seen) ∧ (∀ q ∈ s.reps, q.1 ∈ x :: seen) :=
+  ⟨fun y hy => List.mem_cons_of_mem _ (hk.1 y hy), fun q hq => List.mem_cons_of_mem _ (hk.2.1 q hq)⟩
+
+/-- a worker whose id is new has no record in the log -/
+theorem own_fresh (w : String) (log : List Rec) (seen : List String) (n : Nat) (ha : ∀ x ∈ log, x.worker ∈ seen)
+    (hw : seen.contains w = false) : own w (log.drop n) = 0 := by
+  unfold own
+  rw [List.countP_eq_zero]
+  intro x hx
+  have := ha x (List.mem_of_mem_drop hx)
+  intro hxw
+  have e : x.worker = w := by simpa using hxw
+  rw [e] at this
+  have : seen.contains w = true := by simpa using this
+  rw [hw] at this; cases this
+
+theorem k_setRep_fresh (w w' : String) (s : Sys) (seen : List String) (p : Nat) (st0 : JState) (hk : K w s seen p)
+    (hok : seen.contains w' = false) : K w (s.setRep w' st0) (w' :: seen) p := by
+  obtain ⟨hm1, hm2⟩ := k_mono w s seen w' p hk
+  refine ⟨hm1, ?_, ?_⟩
+  · intro q hq
+    rcases mem_setRep s w' _ q hq with e | e
+    · rw [e]; exact List.mem_cons_self
+    · exact hm2 q e
+  · intro st hst
+    cases hww : w' == w with
+    | false => rw [rep?_setRep_ne s w w' _ hww] at hst; exact hk.2.2 st hst
+    | true =>
+      have e : w' = w := by simpa using hww
+      subst e
+      show own w' ((s.setRep w' st0).log.drop st.cursor) ≤ p
+      have : (s.setRep w' st0).log = s.log := rfl
+      rw [this, own_fresh w' s.log seen _ hk.1 hok]; omega
+
+theorem k_step (w : String) (s : Sys) (seen : List String) (p : Nat) (e : Ev) (hk : K w s seen p) (hI : Inv s)
+    (hok : okEv seen e = true) : K w (stepEv s e) (seenStep seen e) (pendStep w p e) := by
+  cases e with
+  | append w' op => exact k_append w w' op s seen p hk hI
+  | sync w' => exact k_sync w w' s seen p hk hI
+  | call w' op =>
+    have h1 := k_sync w w' _ seen _ (k_append w w' op s seen p hk hI) (inv_append s w' op hI)
+    have : (if (w' == w) = true then (if (w' == w) = true then p + 1 else p) - 1 else if (w' == w) = true then p + 1 else p) = p := by
+      split <;> omega
+    rw [this] at h1
+    exact h1
+  | snapshot w' =>
+    simp only [stepEv, seenStep, pendStep]
+    split
+    · exact hk
+    · exact hk
+  | crash w' =>
+    simp only [stepEv, seenStep, pendStep]
+    refine ⟨hk.1, ?_, ?_⟩
+    · intro q hq
+      simp only [List.mem_filter] at hq
+      exact hk.2.1 q hq.1
+    · intro st hst
+      exact hk.2.2 st (rep?_crash s w w' st hst)
+  | join w' =>
+    have hc : seen.contains w' = false := by simpa [okEv] using hok
+    simp only [stepEv, seenStep, pendStep]
+    split
+    · rename_i st' hl
+      exfalso
+      have := hk.2.1 _ (rep?_mem s w' st' hl)
+      have : seen.contains w' = true := by simpa using this
+      rw [hc] at this; cases this
+    · exact k_setRep_fresh w w' s seen p _ hk hc
+  | restore w' k =>
+    have hc : seen.contains w' = false := by simpa [okEv] using hok
+    simp only [stepEv, seenStep, pendStep]
+    split
+    · exact k_setRep_fresh w w' s seen p _ hk hc
+    · obtain ⟨hm1, hm2⟩ := k_mono w s seen w' p hk
+      exact ⟨hm1, hm2, hk.2.2⟩
+
+theorem k_run (w : String) (evs : List Ev) : ∀ (s : Sys) (seen : List String) (p : Nat), K w s seen p → Inv s →
+    freshFrom seen evs = true → ∃ seen', K w (run s evs) seen' (evs.foldl (pendStep w) p) := by
+  induction evs with
+  | nil => intro s seen p hk _ _; exact ⟨seen, hk⟩
+  | cons e rest ih =>
+    intro s seen p hk hI hf
+    rw [freshFrom_cons, Bool.and_eq_true] at hf
+    exact ih _ _ _ (k_step w s seen p e hk hI hf.1) (inv_step s e hI) hf.2
+
+/-- **hpre_invariant**: in every run in which worker ids are never re-used (`FreshIds`: each `JournalStorage` object
+draws a fresh uuid4), every live worker `w` that is between calls (`pending w evs = 0`: each of its `append`s has been
+followed by its `sync`, as every public writer does before it returns) has read every record of its own: the part of
+the log beyond its cursor contains no record issued by `w` -/
+theorem hpre_invariant (evs : List Ev) (hf : FreshIds evs = true) (w : String) (st : JState)
+    (h : (run Sys.init evs).rep? w = some st) (hp : pending w evs = 0) :
+    ∀ x ∈ (run Sys.init evs).log.drop st.cursor, (x.worker == w) = false := by
+  have hk0 : K w Sys.init [] 0 :=
+    ⟨by intro x hx; simp [Sys.init] at hx, by intro q hq; simp [Sys.init] at hq, by intro st hst; simp [Sys.init, Sys.rep?] at hst⟩
+  obtain ⟨seen', hk⟩ := k_run w evs Sys.init [] 0 hk0 inv_init hf
+  have := hk.2.2 st h
+  unfold pending at hp
+  rw [hp] at this
+  have h0 : own w ((run Sys.init evs).log.drop st.cursor) = 0 := by omega
+  unfold own at h0
+  rw [List.countP_eq_zero] at h0
+  intro x hx
+  simpa using h0 x hx
+
+/-- **ack_is_contract_answer_run** — `ack_is_contract_answer_run_partial` without `hpre`, for runs with `FreshIds` and a
+worker that is between calls -/
+theorem ack_is_contract_answer_run (evs : List Ev) (hf : FreshIds evs = true) (w : String) (st : JState) (op : Op) (r : Rec)
+    (h : (run Sys.init evs).rep? w = some st) (hp : pending w evs = 0) (hr : issue w op = some r) :
+    let log := (run Sys.init evs).log
+    let res := sync w st (log ++ [r]) (log ++ [r]).length
+    let cop := C06FrontGen.withRaised op (rejects (fresh log) r == some .valueError)
+    (stepEv (run Sys.init evs) (.call w op)).rep? w = some res.1 ∧
+    res.2 = errOf (Storage.step (fresh log) cop).2 ∧
+    (res.2 = none →
+      res.1.spec = (Storage.step (fresh log) cop).1 ∧ res.1.cursor = (log ++ [r]).length ∧
+      (∀ sid t b, op = .createTrial sid t b → res.1.lastCreated = some (fresh log).trials.length)) :=
+  ack_is_contract_answer_run_partial evs w st op r h hr (hpre_invariant evs hf w st h hp)
+
+/-- **sync_between_calls_reads_all**: in a `FreshIds` run, the sync of a worker that is between calls (what every getter
+does first, under its lock) raises nothing, reads the whole log, and leaves the replica at the fresh replay of the
+whole log -/
+theorem sync_between_calls_reads_all (evs : List Ev) (hf : FreshIds evs = true) (w : String) (st : JState)
+    (h : (run Sys.init evs).rep? w = some st) (hp : pending w evs = 0) :
+    let log := (run Sys.init evs).log
+    let res := sync w st log log.length
+    (stepEv (run Sys.init evs) (.sync w)).rep? w = some res.1 ∧ res.2 = none ∧
+    res.1.spec = fresh log ∧ res.1.cursor = log.length := by
+  intro log res
+  have hpre := hpre_invariant evs hf w st h hp
+  have hI := inv_run Sys.init evs inv_init
+  have hs := hI.1 _ (rep?_mem _ w st h)
+  have hres : res = (applyAll w st (log.drop st.cursor), none) := by
+    show sync w st log log.length = _
+    unfold sync
+    rw [List.take_length]
+    have := applyLogs_append_foreign w st (log.drop st.cursor) [] hpre
+    rw [List.append_nil] at this
+    rw [this]; rfl
+  refine ⟨?_, by rw [hres], ?_, ?_⟩
+  · simp only [stepEv, doSync, h]
+    exact rep?_setRep_self _ w _
+  · rw [hres]
+    show (applyAll w st (log.drop st.cursor)).spec = fresh log
+    rw [(C06.applyAll_pub w st _).1, hs.2]
+    unfold fresh; rw [← C06.pubReplay_append, List.take_append_drop]
+  · rw [hres]
+    show (applyAll w st (log.drop st.cursor)).cursor = log.length
+    have hle : st.cursor ≤ log.length := hs.1
+    rw [(C06.applyAll_pub w st _).2, List.length_drop]; omega
+
+/-- a disciplined run stays disciplined: after a `call` the caller is between calls again -/
+theorem pending_call (w : String) (evs : List Ev) (op : Op) : pending w (evs ++ [.call w op]) = pending w evs := by
+  simp [pending, List.foldl_append, pendStep]
+
+example : FreshIds demoRun = true := by decide
+example : pending "A" demoRun = 0 ∧ pending "C" demoRun = 0 ∧ pending "D" demoRun = 0 := by decide
+/-- B appended and crashed before its sync: it is not between calls -/
+example : pending "B" (demoRun.take 9) = 1 := by decide
+/-- re-using the id of the crashed B is what `FreshIds` excludes -/
+example : FreshIds (demoRun ++ [.join "B"]) = false := by decide
+/-- and it is needed: B re-joined finds its old unread record -/
+example : ((run Sys.init (demoRun ++ [.join "B"])).rep? "B").map
+    (fun st => ((run Sys.init (demoRun ++ [.join "B"])).log.drop st.cursor).any (fun x => x.worker == "B")) = some true := by decide
+
 end OptunaVerif.C06Run
